@@ -9,6 +9,8 @@ package rules
 
 import (
 	"fmt"
+	"go/ast"
+	"go/constant"
 	"go/token"
 	"go/types"
 	"math/big"
@@ -28,6 +30,97 @@ type skelEval struct {
 	// onBlock is told every block entered at depth 0
 	preset  map[ssa.Value]*big.Int
 	onBlock func(*ssa.BasicBlock)
+	// onInstr is told every instruction executed at depth 0, with the evaluator of the moment
+	onInstr func(in ssa.Instruction, get func(ssa.Value) *big.Int)
+}
+
+// globalIntArray: the elements of a package-level integer array / slice variable
+// that is initialised by a composite literal of constants and never written
+// afterwards (a lookup table); nil otherwise.
+func (c *Ctx) globalIntArray(g *ssa.Global) []*big.Int {
+	if c.gtables == nil {
+		c.gtables = map[*ssa.Global][]*big.Int{}
+	}
+	if v, ok := c.gtables[g]; ok {
+		return v
+	}
+	c.gtables[g] = nil
+	obj, _ := g.Object().(*types.Var)
+	if obj == nil || g.Pkg == nil {
+		return nil
+	}
+	pk := c.P.ByPth[g.Pkg.Pkg.Path()]
+	if pk == nil {
+		return nil
+	}
+	// written anywhere outside the package initialiser?
+	for _, fn := range c.Funcs() {
+		if fn.Name() == "init" {
+			continue
+		}
+		for _, b := range fn.Blocks {
+			for _, in := range b.Instrs {
+				if st, ok := in.(*ssa.Store); ok {
+					a := st.Addr
+					for {
+						if ia, ok := a.(*ssa.IndexAddr); ok {
+							a = ia.X
+							continue
+						}
+						break
+					}
+					if a == ssa.Value(g) {
+						return nil
+					}
+				}
+			}
+		}
+	}
+	var out []*big.Int
+	found := false
+	for _, f := range pk.Syntax {
+		for _, d := range f.Decls {
+			gd, ok := d.(*ast.GenDecl)
+			if !ok {
+				continue
+			}
+			for _, sp := range gd.Specs {
+				vs, ok := sp.(*ast.ValueSpec)
+				if !ok {
+					continue
+				}
+				for i, nm := range vs.Names {
+					if pk.TypesInfo.Defs[nm] != types.Object(obj) || i >= len(vs.Values) {
+						continue
+					}
+					cl, ok := ast.Unparen(vs.Values[i]).(*ast.CompositeLit)
+					if !ok {
+						return nil
+					}
+					for _, el := range cl.Elts {
+						if _, kv := el.(*ast.KeyValueExpr); kv {
+							return nil
+						}
+						tv, ok := pk.TypesInfo.Types[el]
+						if !ok || tv.Value == nil || tv.Value.Kind() != constant.Int {
+							return nil
+						}
+						n, ok := new(big.Int).SetString(tv.Value.ExactString(), 10)
+						if !ok {
+							return nil
+						}
+						out = append(out, n)
+					}
+					found = true
+				}
+			}
+		}
+	}
+	if !found {
+		return nil
+	}
+	c.gtables[g] = out
+	return out
 }
 
 func wrapTo(v *big.Int, t types.Type, sizes types.Sizes) *big.Int {
@@ -75,6 +168,7 @@ func (e *skelEval) run(fn *ssa.Function, args []*big.Int) (*big.Int, error) {
 		}
 		return env[v]
 	}
+	cellVal := map[ssa.Value]*big.Int{} // addresses of elements of constant lookup tables
 	b := fn.Blocks[0]
 	var prev *ssa.BasicBlock
 	for steps := 0; steps < 2000; steps++ {
@@ -85,7 +179,23 @@ func (e *skelEval) run(fn *ssa.Function, args []*big.Int) (*big.Int, error) {
 			if v, ok := in.(ssa.Value); ok && preset[v] {
 				continue
 			}
+			if e.depth == 0 && e.onInstr != nil {
+				e.onInstr(in, get)
+			}
 			switch x := in.(type) {
+			case *ssa.IndexAddr:
+				if g, ok := x.X.(*ssa.Global); ok {
+					if tbl := e.c.globalIntArray(g); tbl != nil {
+						idx := get(x.Index)
+						if idx == nil {
+							continue
+						}
+						if idx.Sign() < 0 || !idx.IsInt64() || idx.Int64() >= int64(len(tbl)) {
+							return nil, fmt.Errorf("panics")
+						}
+						cellVal[x] = tbl[idx.Int64()]
+					}
+				}
 			case *ssa.Phi:
 				for i, p := range b.Preds {
 					if p == prev {
@@ -105,6 +215,12 @@ func (e *skelEval) run(fn *ssa.Function, args []*big.Int) (*big.Int, error) {
 					env[x] = v
 				}
 			case *ssa.UnOp:
+				if x.Op == token.MUL {
+					if v, ok := cellVal[x.X]; ok {
+						env[x] = v
+					}
+					continue
+				}
 				if v := get(x.X); v != nil {
 					switch x.Op {
 					case token.SUB:
